@@ -42,6 +42,9 @@ type Case struct {
 	// hands Send a sub-slice for each (so every slice has spare capacity, namely
 	// the records behind it).
 	SharedBuf bool `json:"shared_buf,omitempty"`
+	// SendBetween: after each Recv the receiving endpoint sends a record of its
+	// own before it looks at what it received.
+	SendBetween bool `json:"send_between,omitempty"`
 }
 
 var framingNames = []string{"line", "split1e", "split00", "splitsp", "splitff", "split80", "splitc2", "hdr", "hdrbin", "hdrcaps", "hdrcolon", "strict", "stricttp", "strictcaps", "lsp", "rawjson", "direct"}
@@ -252,6 +255,14 @@ func run(_ *testing.T, c Case) engine.Verdict {
 			var err error
 			if p := safely(func() { got, err = rcv.Recv() }); p != nil {
 				return engine.Failf(sig+"/recv-panic", "Recv #%d panicked: %v", i, p)
+			}
+			if c.SendBetween && err == nil {
+				if serr := rcv.Send([]byte(`{"s":1}`)); serr != nil {
+					return engine.Failf(sig+"/send-error", "Send on the receiving endpoint after Recv #%d: %v", i, serr)
+				}
+				if !bytes.Equal(got, exp) {
+					return engine.Failf(sig+"/record-differs", "Recv #%d returned %s; after the same endpoint sent a record of its own the returned bytes read %s", i, engine.Q(clip(exp)), engine.Q(clip(got)))
+				}
 			}
 			got = append([]byte(nil), got...) // buffers are reused
 			if err != nil {
@@ -478,6 +489,7 @@ func genCase(big bool) func(t *rapid.T) Case {
 		}
 		c.EOFWithData = rapid.Bool().Draw(t, "eofWithData")
 		c.SharedBuf = rapid.IntRange(0, 3).Draw(t, "sharedbuf") == 0
+		c.SendBetween = rapid.IntRange(0, 3).Draw(t, "sendbetween") == 0
 		return c
 	}
 }
@@ -599,7 +611,7 @@ var parts = []engine.AnyPart{
 	engine.Part[Case]{Name: "huge", Run: run, Enum: enumHuge,
 		Rule: "growing and shrinking multi-megabyte sequences (thorough: across the 16 MiB pre-allocation threshold); " + ntRule},
 	engine.Part[Case]{Name: "random", Run: run, Gen: genCase(false),
-		Rule: "0-12 records with sizes around 0/4096/65536, hostile short literals (some containing the split byte), random cuts / bounded reads / 1-byte reads; one sender in four keeps its records side by side in one buffer and sends sub-slices (the buffer must be unchanged after every Send); " + ntRule},
+		Rule: "0-12 records with sizes around 0/4096/65536, hostile short literals (some containing the split byte), random cuts / bounded reads / 1-byte reads; one sender in four keeps its records side by side in one buffer and sends sub-slices (the buffer must be unchanged after every Send); one receiver in four sends a record of its own after each Recv before it looks at the bytes it was given; " + ntRule},
 	engine.Part[Case]{Name: "randombig", Run: run, Gen: genCase(true),
 		Rule: "as random, with sizes up to 3 MiB; " + ntRule},
 }
